@@ -245,7 +245,21 @@ impl J {
             Value::Number(n) => J::Num(n.to_string()),
             Value::String(s) => J::Str(s.clone()),
             Value::Array(a) => J::Arr(a.iter().map(J::from_value).collect()),
-            Value::Object(m) => J::Obj(m.iter().map(|(k, v)| (k.clone(), J::from_value(v))).collect()),
+            Value::Object(m) => J::Obj(
+                m.iter()
+                    .map(|(k, v)| {
+                        let mut j = J::from_value(v);
+                        // a HashSet is written in its (per-process random) iteration order: canonicalise,
+                        // so that the stream is a function of the seed alone
+                        if k == "week_mask" {
+                            if let J::Arr(a) = &mut j {
+                                a.sort_by_key(|x| x.text());
+                            }
+                        }
+                        (k.clone(), j)
+                    })
+                    .collect(),
+            ),
         }
     }
     fn print(&self, out: &mut String) {
